@@ -154,6 +154,15 @@ def capture_states():
     fair(w, 3, settle=run)
     assert w.sups[0].fsm.state.name == 'OPERATION', w.summary()
     op_blob = W.snapshot(w)
+    # OPERATION while ANOTHER instance has a job in progress (a slow start requested on the slave, its state & modes
+    # publication delivered to the Master): restart_sequence ":raises BAD_SUPVISORS_STATE ... or has jobs in progress"
+    wj = W.restore(op_blob)
+    wj.user_rpc(1, 'start_process', ('CONFIG', 'A:b', '', False))
+    while wj.deliverable():
+        wj.apply(('deliver',) + wj.deliverable()[0])
+    if wj.sups[0].fsm.state.name == 'OPERATION' and not wj.sups[0].starter.in_progress():
+        found[('OPERATION', 'master[jobs-on-a-peer]')] = W.snapshot(wj)
+    W.activate(w)
     # CONCILIATION with the USER strategy: a duplicate of A:a started directly on the slave
     w.apply(('ustart', 1, 'A:a'))
     note_after_drain(w)
@@ -274,6 +283,8 @@ def judge(state, role, idx, blob, method, args, pfaults):
         gate_open = None    # "from DISTRIBUTION on": FINAL is left open by the statement
     if method == 'end_sync' and role != 'user-option' and state == 'SYNCHRONIZATION':
         gate_open = None    # needs the USER option: NOT_APPLICABLE otherwise (not a state matter)
+    if method == 'restart_sequence' and role == 'master[jobs-on-a-peer]':
+        gate_open = False   # jobs in progress on another instance
     if gate_open is False:
         if code != BAD_STATE:
             viols.append({'clause': 'served-outside-documented-states',
@@ -320,7 +331,7 @@ def all_snapshots(t, cov=None):
     """{(state, role label): (instance index, snapshot)}: hand-made quiescent states, the USER-option state and one
     snapshot per class of the exhaustive membership exploration."""
     cov = cov if cov is not None else {}
-    blobs = {k: (0 if k[1] == 'master' else 1, b) for k, b in capture_states().items()}
+    blobs = {k: (0 if k[1].startswith('master') else 1, b) for k, b in capture_states().items()}
     cov['states_reached'] = sorted(f'{s}/{r}' for s, r in blobs)
     # every (local state, role, believed Master state) class reachable in an exhaustive membership exploration
     gen = _Collector()
